@@ -632,7 +632,22 @@ def tabulation_checks(ctx, rng, descr, what, get_state, first, step_s, npts, key
         return
     for kk, (p, q, d) in enumerate(zip(pts, direct, dates)):
         a, b = probe.arr(p.copy(frame=q.frame) if str(p.frame) != str(q.frame) else p), probe.arr(q)
-        derr = abs((p.date - d).total_seconds())
+        derr = abs((p.date - q.date).total_seconds())  # differential: the instant the direct request is dated at
+        dreq = abs((q.date - d).total_seconds())
+        if dreq > 1.5e-6:
+            # the direct request itself is not dated at the instant asked for.  One mechanism is C04's open finding (EOP values
+            # looked up by the day number of the LABEL: a date whose label day differs from its UTC day gets the UT1-UTC of the
+            # neighbouring day, <= a few ms): recognised by exactly that, recorded, and left to C04; anything else is judged here
+            try:
+                utc_day = int(d.change_scale("UTC").d)
+                by_label = (int(d.d) != utc_day or int(q.date.d) != utc_day) and dreq <= 5e-3
+            except Exception:
+                by_label = False
+            if by_label:
+                ctx.count("tabulation:direct-request-date-off-by-eop-day-lookup-by-label (C04 finding, not judged here)")
+            else:
+                ctx.violation(key + "-dates", dict(w, index=kk, got=str(q.date), wanted=str(d), direct_request=True),
+                              f"direct request of {what} for {d} is dated {q.date}")
         L, V = float(np.linalg.norm(b[:3])), float(np.linalg.norm(b[3:]))
         ctx.resid("tabulation:position vs direct request (rel)", float(np.linalg.norm(a[:3] - b[:3])) / max(L, 1.0), 1e-12, key=key,
                   witness=dict(w, index=kk, date=str(d), tabulated=a.tolist(), direct=b.tolist()),
